@@ -1058,7 +1058,8 @@ impl SQLExpression for BinaryOperator {
     fn associativity(&self) -> Associativity {
         use BinaryOperator::*;
         match self {
-            Minus | Divide | Modulo => Associativity::Left,
+            // `*` shares its level with `/` and `%`: `a * (b % c)` is not `a * b % c`
+            Minus | Divide | Modulo | Multiply => Associativity::Left,
             Gt | Lt | GtEq | LtEq | Eq | NotEq => Associativity::None,
             _ => Associativity::Both,
         }
